@@ -6,7 +6,7 @@ C20 ops
 
   atom <pos> <id|.> <ref> <alts: A,B | .> <snvpos: 1,2 | .> <sample>…
       sample = `<gt 0/1/.>;<sq int|.>;<acp q,q,nan | ->;<afp … | ->;<snvdp q,q | ->`
-    → `none` (no SNV) | `error:<TypeError|IndexError|ValueError>` |
+    → `none` (no SNV) | `error:<IndexError|ValueError>` |
       lines joined by ` ; `, each `pos id ref alts|. AC=..|. ACP=.. DP=.. PS=.. <sample>…`
       with sample = `gt(|-separated):pq:dp:ds`, rationals as num/den, missing as `nan`
   atom.idx <column of bases>    → allele numbers of one site, `|` first-appearance bases
@@ -48,7 +48,7 @@ def showList (f : α → String) (l : List α) : String := if l.isEmpty then "."
 def showLine (l : SnvLine) : String :=
   let samples := (List.range l.gts.length).map (fun i =>
     let gt := "|".intercalate ((l.gts.getD i []).map showOptNat)
-    let pq := match l.pq.getD i none with | none => "None" | some n => toString n
+    let pq := match l.pq.getD i none with | none => "." | some n => toString n
     s!"{gt}:{pq}:{showOptRat (l.sdp.getD i none)}:{showList showOptRat (l.ds.getD i [])}")
   s!"{l.pos} {l.id} {l.ref} {showList (fun c => String.singleton c) l.alts} AC={showList toString l.ac} ACP={showList showOptRat l.acp} DP={showOptRat l.dp} PS={l.ps} " ++ " ".intercalate samples
 
